@@ -303,3 +303,18 @@ def rescore_path(mt, family, model, counters=None, stamps=None):
             break
         prev_entry = x
     return out
+
+
+def tie_induced(path_a, path_b, keymap=None, tol=1e-12):
+    """Two reported paths [(key, logprob), ...] differ.  The difference is induced by a choice among exactly equally
+    probable alternatives when (a) the totals are equal, or (b) at the FIRST position where the states differ both
+    alternatives have the same probability (everything after that point follows from the choice; in particular the
+    trailing non-emitting states after an early stop, where the deepest chain is reported, not the most probable)."""
+    pa, pb = path_a[-1][1], path_b[-1][1]
+    if abs(pa - pb) <= tol * max(1.0, abs(pa)):
+        return True
+    for (ka, la), (kb, lb) in zip(path_a, path_b):
+        ka2 = keymap(ka) if keymap else ka
+        if list(ka2) != list(kb):
+            return abs(la - lb) <= tol * max(1.0, abs(la))
+    return False
